@@ -9,6 +9,7 @@ def dispatch (j : Json) : Json :=
   | "ic" => opIc j
   | "morphy" => opMorphy j
   | "store" => opStore j
+  | "glob" => opGlob j
   | "ping" => jObj [("pong", jNat 1)]
   | op => jObj [("bad-op", jStr op)]
 
